@@ -112,6 +112,21 @@ def prepare_crate():
     return crate, prefix
 
 
+ROW_RE = re.compile(r'row!\(\s*rig,\s*"([^"]+)"')
+
+
+def table_rows_from_source(crate):
+    """(row names, gate-only names) read from the crate's table.rs (works even if the build fails)"""
+    try:
+        txt = open(os.path.join(crate, "src", "table.rs")).read()
+    except OSError:
+        return [], []
+    rows = ROW_RE.findall(txt)
+    m = re.search(r"GATE_ONLY: &\[&str\] = &\[([^\]]*)\]", txt)
+    gate_only = re.findall(r'"([^"]+)"', m.group(1)) if m else []
+    return rows, gate_only
+
+
 PUB_RE = re.compile(r"^\s*pub\s+(?:struct|enum)\s+([A-Za-z_][A-Za-z0-9_]*)", re.M)
 
 
@@ -268,10 +283,12 @@ def stage_native(st, binary, cfg, only=None):
     if done is None or rc not in (0, 3):
         tail = [rel_repo(l) for l in out.splitlines() if not l.startswith(("SHIPPED", "SAMPLE"))][-40:]
         where = re.search(r"panicked at ([^\n]+)", out)
-        last = shipped[-1][0] if shipped else "-"
         running = re.search(r"thread '[A-DW]\d*:([^']+)'", out)
-        st.violate("native-crash", rel_repo(f"exit={rc} row={(running.group(1) if running else last)} at={(where.group(1).strip() if where else '?')}"),
-                   {"stage": "native", "exit_code": rc, "output_tail": tail})
+        # the signature holds the kind of crash only (the row and the allocator message vary from run to run)
+        what = ("panic at " + where.group(1).strip()) if where else ("killed by signal %d" % -rc if rc < 0 else f"exit code {rc}")
+        st.violate("native-crash", rel_repo(what),
+                   {"stage": "native", "exit_code": rc, "rows_completed": len(shipped), "last_row_completed": shipped[-1][0] if shipped else None,
+                    "row_named_by_panic": running.group(1) if running else None, "output_tail": tail})
     return shipped, samples, done
 
 
@@ -486,14 +503,15 @@ def main():
     only_stage = replay_j["violation"]["detail"].get("stage") if replay_j else None
 
     shipped, samples, done, miri_exec, miri_rows, tsan_runs, tsan_renders = [], {}, None, 0, [], 0, 0
-    listed_rows, gate_only = [], []
+    listed_rows, gate_only = table_rows_from_source(crate)
 
     # (a) compile gate
     binary = stage_build(st, crate, prefix)
     if binary:
         rc, out, _ = run([binary, "--list"], ROOT, timeout=120)
-        listed_rows = [l[5:] for l in out.splitlines() if l.startswith("TYPE ")]
-        gate_only = [l[9:] for l in out.splitlines() if l.startswith("GATEONLY ")]
+        built_rows = [l[5:] for l in out.splitlines() if l.startswith("TYPE ")]
+        if sorted(built_rows) != sorted(listed_rows):
+            st.harness_errors.append(f"table.rs scan ({len(listed_rows)} rows) disagrees with the binary's --list ({len(built_rows)} rows)")
         say(f"  compile gate passed: {len(listed_rows)} table rows over {len({r.split('/')[0] for r in listed_rows})} types (+{len(gate_only)} gate-only) are Send + Sync  [{st.counters['native_build_s']} s]")
         # (b) native
         if only_stage in (None, "native", "build"):
